@@ -406,3 +406,34 @@ func ErrorPropagated(fn *ssa.Function, call ssa.Instruction, nilEdges []Edge, is
 	hit, reach := q.CanReach(call, isNilReturn)
 	return hit, !reach
 }
+
+// Family returns fn, its closures, and the repository functions of the same package that it calls statically, up to
+// the given depth (closures of those included).  Rules anchored on a function look at its family so that a piece of the
+// function extracted into a helper (or a helper inlined back) does not change what they see.
+func Family(fn *ssa.Function, depth int) []*ssa.Function {
+	seen := map[*ssa.Function]bool{}
+	var out []*ssa.Function
+	var visit func(f *ssa.Function, d int)
+	visit = func(f *ssa.Function, d int) {
+		if f == nil || seen[f] || f.Blocks == nil {
+			return
+		}
+		seen[f] = true
+		out = append(out, f)
+		for _, c := range f.AnonFuncs {
+			visit(c, d)
+		}
+		if d == 0 {
+			return
+		}
+		Instrs(f, func(in ssa.Instruction) {
+			if ci, ok := in.(ssa.CallInstruction); ok {
+				if c := StaticFn(ci.Common()); c != nil && c.Pkg != nil && fn.Pkg != nil && c.Pkg == fn.Pkg && c.Parent() == nil {
+					visit(c, d-1)
+				}
+			}
+		})
+	}
+	visit(fn, depth)
+	return out
+}
